@@ -80,6 +80,9 @@ func (fr *Frame) builtin(in ssa.Instruction, b *ssa.Builtin, c *ssa.CallCommon) 
 			ex.oblige("lock", "delete-map", fmt.Sprintf("(= %s 2)", fr.heldTerm(mu)), fr.curReach, "guarded map written while holding the write lock", in.Pos(), []string{"C12", "C20"})
 		}
 		mt := c.Args[0].Type().Underlying().(*types.Map)
+		fr.names["deletemap"] = fr.val(c.Args[0])
+		fr.names["deletekey"] = fr.val(c.Args[1])
+		fr.siteClausesNamed(in, "delete", in.Pos())
 		ex.mapDelete(fr.curMem, mt, fr.val(c.Args[0]).T, fr.val(c.Args[1]).T)
 		return nil
 	case "close":
